@@ -10,7 +10,7 @@
 //verif:subst p2p/host/observedaddrs github.com/multiformats/go-multiaddr/net.ToIP verifToIP
 //verif:replace (net.IP).String vC17ipString
 //verif:shard VerifC17aHistory 9
-//verif:obligation C17.a observation bookkeeping vs the statement on every history of 3 (thorough 4) operations from {record(conn, observed address), close+remove(conn)} over 3 connections (two of them possibly in the same observer group) and 2 observed addresses, threshold 2: AddrsFor returns an observed address iff the number of distinct observer groups among the currently open connections whose current credited observation is that address reaches the threshold, most observed first, at most 3; a repeated report from one group counts once, and - the inductive fact behind withdrawal - every group is credited exactly once per open connection currently reporting the address (so a repeated identical report never inflates the credit that one close removes); a report is withdrawn when the connection reports another address or closes; a report processed after its connection closed is never credited
+//verif:obligation C17.a observation bookkeeping vs the statement on every history of 3 (thorough 4) operations from {record(conn, observed address), close+remove(conn)} over 3 connections (two of them possibly in the same observer group) and 2 observed addresses, threshold 2: AddrsFor returns an observed address iff the number of distinct observer groups among the currently open connections whose current credited observation is that address reaches the threshold, most observed first, at most 3; a repeated report from one group counts once, and - the inductive fact behind withdrawal - every group is credited exactly once per open connection currently reporting the address (so a repeated identical report never inflates the credit that one close removes); a report on a connection that closes (and whose Disconnected is processed) while the report is still being examined is not credited; a report is withdrawn when the connection reports another address or closes; a report processed after its connection closed is never credited
 //verif:obligation C17.b filters: observations that are loopback, NAT64, relayed, of a transport inconsistent with the local address, or on a connection whose local address is not a listen address are never recorded
 //verif:obligation C17.d the real hasConsistentTransport / isRelayedAddress over multiaddrs produced by the real parser (IPv4 / IPv6 x TCP / UDP): an observed thin-waist address is consistent with the local one iff both the IP family and the transport protocol agree; addresses of different shapes never are; circuit addresses are recognised as relayed
 //verif:obligation C17.c observer grouping: two IPv4 remotes are the same observer iff their addresses are equal; two IPv6 remotes iff their first 56 bits are equal
@@ -71,8 +71,18 @@ func vC17remove() {
 	VerifHook_thinWaistForm, VerifHook_getObserver, VerifHook_hasConsistentTransport, VerifHook_isRelayedAddress = nil, nil, nil, nil
 }
 
+// what happens while an observation is being examined (the listen-address callback runs before the
+// manager takes its lock): lets a harness close the connection "meanwhile"
+var vC17meanwhile func()
+
 func vC17manager(listen []ma.Multiaddr) *Manager {
-	return &Manager{listenAddrs: func() []ma.Multiaddr { return append([]ma.Multiaddr{}, listen...) },
+	return &Manager{listenAddrs: func() []ma.Multiaddr {
+		if f := vC17meanwhile; f != nil {
+			vC17meanwhile = nil
+			f()
+		}
+		return append([]ma.Multiaddr{}, listen...)
+	},
 		externalAddrs: map[string]map[string]*observerSet{}, connObservedTWAddrs: map[connMultiaddrs]ma.Multiaddr{}}
 }
 
@@ -103,7 +113,18 @@ func VerifC17aHistory() {
 		}
 		if op < 6 {
 			c, x := op%3, op/3
+			if !vC17conns[c].closed && vBool() {
+				// the connection closes, and its Disconnected notification is processed, while this report
+				// is still being examined
+				vC17meanwhile = func() {
+					vC17conns[c].closed = true
+					o.removeConn(vC17conns[c])
+					credited[c] = -1
+				}
+				vCover("closed-while-the-report-is-examined")
+			}
 			o.maybeRecordObservation(vC17conns[c], vC17obs[x])
+			vC17meanwhile = nil
 			if !vC17conns[c].closed {
 				credited[c] = x
 			} else {
@@ -251,4 +272,8 @@ func VerifC17dConsistentTransport() {
 	vAssert(!hasConsistentTransport(a, nil) && !hasConsistentTransport(a, a[:1]), "addresses of different shapes are never consistent")
 	relay := vC17parse("/ip4/1.2.3.4/tcp/1/p2p-circuit")
 	vAssert(isRelayedAddress(relay) && !isRelayedAddress(a), "relayed addresses are recognised")
+	const id = "QmYyQSo1c1Ym7orWxLYvCrM2EmxFTANf8wXmmE7DWjhx5N"
+	for _, t := range []string{"/ip4/1.2.3.4/tcp/1/p2p/" + id + "/p2p-circuit", "/ip4/1.2.3.4/tcp/1/p2p/" + id + "/p2p-circuit/p2p/" + id, "/ip4/1.2.3.4/tcp/1/p2p-circuit/p2p/" + id} {
+		vAssert(isRelayedAddress(vC17parse(t)), "a circuit address is relayed wherever the circuit component stands")
+	}
 }
